@@ -41,6 +41,8 @@ TaxOf(value, p) ==
     ELSE 0
 
 ParamsSafe(p) == p.taxRate < MaxTaxBP /\ p.minDeposit >= Dust /\ p.conf >= 1
+\* what Params.Validate accepts (so that any reachable state can be exported and imported again)
+ParamsImportable(p) == ParamsSafe(p) /\ (IF p.taxRate > 0 THEN p.maxTax > 0 /\ p.maxTax <= 100000000 ELSE p.maxTax = 0)
 
 (***************************************************************************)
 (* MsgNewBlockHashes.  m = [wf, start, hashes, voteOk]                      *)
@@ -219,9 +221,14 @@ CancelWalk(S, cs) ==
        IF w.status = "none" THEN Fail(S)
        ELSE CancelWalk(IF w.status = "pending" THEN SetWd(S, Head(cs), [w EXCEPT !.status = "canceling"]) ELSE S, Tail(cs))
 
+\* a tax request is applied only as a whole and only if the resulting pair is one the module's own validation accepts
+MaxTaxCap == 100000000
+TaxPairOk(rate, max) == rate < MaxTaxBP /\ (IF rate > 0 THEN max > 0 /\ max <= MaxTaxCap ELSE max = 0)
+
 RECURSIVE ParamWalk(_, _, _, _)
 ParamWalk(p, tax, conf, minDep) ==
-  IF tax # << >> THEN ParamWalk([p EXCEPT !.maxTax = Head(tax).max, !.taxRate = IF Head(tax).rate < MaxTaxBP THEN Head(tax).rate ELSE @], Tail(tax), conf, minDep)
+  IF tax # << >> THEN ParamWalk(IF TaxPairOk(Head(tax).rate, Head(tax).max) THEN [p EXCEPT !.maxTax = Head(tax).max, !.taxRate = Head(tax).rate] ELSE p,
+                                Tail(tax), conf, minDep)
   ELSE IF conf # << >> THEN ParamWalk(IF Head(conf) # 0 THEN [p EXCEPT !.conf = Head(conf)] ELSE p, tax, Tail(conf), minDep)
   ELSE IF minDep # << >> THEN ParamWalk(IF Head(minDep) > Dust THEN [p EXCEPT !.minDeposit = Head(minDep)] ELSE p, tax, conf, Tail(minDep))
   ELSE p
